@@ -202,3 +202,58 @@ func VerifC07SameDeclarations() {
 	verif.Assert("C07/decls/client-and-server-declare-the-same-types", same)
 	verif.Reach("C07/decls/decided")
 }
+
+// c07PromiseType: the type argument of the last Promise<...> on the line.
+func c07PromiseType(l string) string {
+	i := strings.LastIndex(l, "Promise<")
+	j := strings.LastIndex(l, ">")
+	if i < 0 || j < i {
+		return ""
+	}
+	return l[i+len("Promise<") : j]
+}
+
+// VerifC07ResultType: the result type both TS generators declare for an RPC is inhabited by
+// what the Go server writes for that response — the bare list or map for a root-unwrapped
+// response message, the object otherwise.
+func VerifC07ResultType() {
+	shape := verif.Choice("response.shape", 4)
+	child := verif.NewMessage("acme.v1", "Child")
+	c07Field(child, "street", "street", protoreflect.StringKind, &descriptorpb.FieldOptions{})
+	req := verif.NewMessage("acme.v1", "Req")
+	c07Field(req, "id", "id", protoreflect.StringKind, &descriptorpb.FieldOptions{})
+	resp := verif.NewMessage("acme.v1", "Resp")
+	uo := &descriptorpb.FieldOptions{}
+	verif.SetExt(uo, http.E_Unwrap, true)
+	switch shape {
+	case 0:
+		verif.AddField(resp, &verif.FieldDesc{FName: "items", FJSON: "items", FKind: protoreflect.StringKind, FList: true, FNumber: 1, FOpts: uo}, "Items")
+	case 1, 2:
+		entry := &protogen.Message{Desc: &verif.MessageDesc{MName: "ByKeyEntry", MFullName: "acme.v1.Resp.ByKeyEntry", MMapEntry: true},
+			GoIdent: protogen.GoIdent{GoName: "Resp_ByKeyEntry", GoImportPath: verif.ImportPath}}
+		c07Field(entry, "key", "key", protoreflect.StringKind, &descriptorpb.FieldOptions{})
+		if shape == 1 {
+			c07Field(entry, "value", "value", protoreflect.StringKind, &descriptorpb.FieldOptions{})
+		} else {
+			vd := &verif.FieldDesc{FName: "value", FJSON: "value", FKind: protoreflect.MessageKind, FNumber: 2, FOpts: &descriptorpb.FieldOptions{}, FMsg: child.Desc}
+			verif.AddField(entry, vd, "Value").Message = child
+		}
+		verif.AddField(resp, &verif.FieldDesc{FName: "by_key", FJSON: "byKey", FKind: protoreflect.MessageKind, FMap: true, FNumber: 1, FOpts: uo, FMsg: entry.Desc}, "ByKey").Message = entry
+	default:
+		c07Field(resp, "ok", "ok", protoreflect.BoolKind, &descriptorpb.FieldOptions{})
+	}
+	svc := verif.NewService("acme.v1", "ItemService", &descriptorpb.ServiceOptions{})
+	mo := &descriptorpb.MethodOptions{}
+	verif.SetExt(mo, http.E_Config, &http.HttpConfig{Path: "/items", Method: http.HttpMethod_HTTP_METHOD_POST})
+	m := verif.NewMethod(svc, "List", "List", req, resp, mo)
+	clientLines := tsclientgen.VerifMethodLines(svc, m)
+	verif.Assert("C07/result/client-method-emitted", len(clientLines) > 0)
+	clientType := c07PromiseType(clientLines[0])
+	serverType := (&Generator{}).resolveOutputType(m)
+	verif.Show("clientType", clientType)
+	verif.Show("serverType", serverType)
+	msgs := []*protogen.Message{req, resp, child}
+	verif.Assert("C07/result/client-result-type-is-inhabited-by-the-wire-form", tscommon.VerifC07ResultAccepts(clientType, shape, msgs))
+	verif.Assert("C07/result/server-handler-result-type-is-inhabited-by-the-wire-form", tscommon.VerifC07ResultAccepts(serverType, shape, msgs))
+	verif.Reach("C07/result/decided")
+}
